@@ -1,6 +1,6 @@
 //! Workers, coordinator, replay and minimisation for the multi-client properties C15 and C16.
 
-use crate::check::{classify, spawn_workers, verif_dir, write_evidence, CheckSpec, VRec, WorkerOut};
+use crate::check::{classify, out_dir, spawn_workers, write_evidence, CheckSpec, VRec, WorkerOut};
 use crate::conc::*;
 use crate::engine::{engine, Finding};
 use crate::hist::Violation;
@@ -437,7 +437,7 @@ pub fn make_diff_replay(v: &VRec, thorough: bool) -> Option<PathBuf> {
     }
     let fin = hit(&ops, &mut stats)?;
     let rep = DiffReplay { kind: "diff".into(), property: "C16".into(), sig: v.sig.clone(), detail: fin.detail, run_seed: v.first_seed, thorough, ops, ghost_at: ghosts };
-    let dir = verif_dir().join("replays").join("C16");
+    let dir = out_dir().join("replays").join("C16");
     let _ = std::fs::create_dir_all(&dir);
     let path = dir.join(format!("{:016x}.json", hash_str(&v.sig)));
     std::fs::write(&path, serde_json::to_string_pretty(&rep).ok()?).ok()?;
@@ -513,16 +513,27 @@ pub fn make_conc_replay(prop: &str, sig: &str, index: u64, thorough: bool) -> Op
     let seed = crate::check::run_seed_of(base, prop, index);
     let run = execute(prop, base, index, thorough, false);
     let v = verdicts(prop, &run.prep, &run.res).into_iter().find(|v| v.sig == sig)?;
-    let mut sc = run.prep.scenario.clone();
-    let mut sched = run.plan.sched.clone();
-    let mut decisions = run.res.decisions.clone();
-    let mut seed_used = seed;
+    let sc = run.prep.scenario.clone();
+    let sched = run.plan.sched.clone();
+    let decisions = run.res.decisions.clone();
     drop(run);
+    finalize_conc_replay(prop, sig, &v.detail, sc, sched, decisions, seed, &format!("run {index}"))
+}
+
+/// minimise a scenario that shows `sig` under the given decisions, verify the replay and write the file
+#[allow(clippy::too_many_arguments)]
+pub fn finalize_conc_replay(prop: &str, sig: &str, detail0: &str, sc: Scenario, sched: SchedCfg, decisions: Vec<u32>, seed: u64, origin: &str) -> Option<PathBuf> {
+    let mut sc = sc;
+    let mut sched = sched;
+    let mut decisions = decisions;
+    let mut seed_used = seed;
+    let index = origin;
+    let v = Violation { prop: prop.into(), sig: sig.into(), detail: detail0.into(), at: 0 };
     // the scripted form must reproduce it
     {
         let (res, prep) = run_scenario(&sc, seed_used, &sched, Some(decisions.clone()), false, false);
         if !verdicts(prop, &prep, &res).iter().any(|x| x.sig == sig) {
-            eprintln!("HARNESS: {prop} {sig} at run {index} does not reproduce from its recorded scenario and decisions");
+            eprintln!("HARNESS: {prop} {sig} at {index} does not reproduce from its recorded scenario and decisions");
             return None;
         }
     }
@@ -596,7 +607,7 @@ pub fn make_conc_replay(prop: &str, sig: &str, index: u64, thorough: bool) -> Op
         log_hash: r1.log_hash,
         trace: crate::check::fmt_trace(&r1.trace).into_iter().rev().take(300).rev().collect(),
     };
-    let dir = verif_dir().join("replays").join(prop);
+    let dir = out_dir().join("replays").join(prop);
     let _ = std::fs::create_dir_all(&dir);
     let path = dir.join(format!("{:016x}.json", hash_str(sig)));
     std::fs::write(&path, serde_json::to_string_pretty(&rep).ok()?).ok()?;
@@ -655,7 +666,7 @@ pub fn check_conc(prop: &str, thorough: bool) -> i32 {
     let base = crate::check::base_seed();
     println!("VERIF_SEED={base} property={prop} tier={}", if thorough { "thorough" } else { "quick" });
     let t0 = Instant::now();
-    let _ = std::fs::remove_dir_all(verif_dir().join("replays").join(prop));
+    let _ = std::fs::remove_dir_all(out_dir().join("replays").join(prop));
     let rule = if prop == "C15" {
         "one evaluation = one scenario (seeded set-up history, then 2-3 client threads with 1-3 public calls each; the first call of each client walks the catalogue of operation-kind pairs by run index, operands are drawn from a shared neighbourhood) executed under one seeded schedule (uniform / run-until-blocked with k pre-emptions / priority change points, half of the runs with stalls); a run is distinct and non-trivial if it had at least one thread switch and its (scenario shape, order of lock grants) is new"
     } else {
@@ -686,13 +697,209 @@ pub fn check_conc(prop: &str, thorough: bool) -> i32 {
     if e2 == 1 || (e2 != 0 && exit == 0) {
         exit = e2;
     }
+    let mut exit = exit;
+    let mut extra = json!({});
+    let mut n_viol = n_viol;
+    let mut known_seen = known_seen;
+    if prop == "C15" {
+        // second part: lock-order edges harvested from single-client histories; an edge against the documented order that is
+        // not a listed finding is turned into a concrete deadlock by a directed schedule search (or noted as unconfirmed)
+        let hruns = if thorough { 400_000 } else { 24_000 };
+        let hspec = CheckSpec { prop: "C15", thorough, worker_cmd: "hist-worker", total: std::env::var("VERIF_RUNS").ok().and_then(|v| v.parse().ok()).unwrap_or(hruns), level: "exploration", rule: "", assumptions: vec![] };
+        let (htotal, hcrashes) = spawn_workers(&hspec, base);
+        for (seed, msg) in &hcrashes {
+            eprintln!("worker crash: {msg} (seed {seed})");
+            exit = 2;
+        }
+        let known = crate::check::load_known();
+        let mut edges_total = 0;
+        let mut edges_against = 0;
+        let mut unconfirmed: Vec<String> = Vec::new();
+        let mut listed_seen: Vec<String> = Vec::new();
+        for v in htotal.violations.values() {
+            if v.prop != "C15E" {
+                continue;
+            }
+            edges_total += 1;
+            if edge_conforms(&v.sig) {
+                continue;
+            }
+            edges_against += 1;
+            if let Some(k) = crate::check::is_known(&known, "C15", &v.sig) {
+                if !listed_seen.contains(&k.sig) {
+                    listed_seen.push(k.sig.clone());
+                }
+                continue;
+            }
+            match confirm_edge(&v.sig, v.first_seed, thorough) {
+                Some(path) => {
+                    n_viol += 1;
+                    println!("VIOLATION property=C15 replay={}", path.display());
+                    println!("  lock-order edge not listed as a known finding: {}", v.sig);
+                    println!("  seen {} times in single-client histories (e.g. run seed {}); the replay is a concrete deadlock found by a directed schedule search", v.count, v.first_seed);
+                    exit = 1;
+                }
+                None => {
+                    println!("NOTE: potential deadlock edge `{}` (seen {} times, e.g. run seed {}) is not a listed finding; no deadlock was constructed for it within the budget", v.sig, v.count, v.first_seed);
+                    unconfirmed.push(v.sig.clone());
+                }
+            }
+        }
+        for k in &listed_seen {
+            if !known_seen.iter().any(|x| x.starts_with(k.as_str())) {
+                known_seen.push(format!("{k} (lock-order edge seen in single-client histories)"));
+            }
+        }
+        extra = json!({
+            "lock_order_harvest": {
+                "single_client_histories": htotal.runs,
+                "calls": htotal.ops,
+                "distinct_lock_order_edges": edges_total,
+                "edges_against_the_documented_order": edges_against,
+                "of_these_listed_as_known_findings": listed_seen.len(),
+                "unlisted_and_not_confirmed_by_directed_search": unconfirmed,
+            }
+        });
+    }
     let wall = t0.elapsed().as_secs_f64();
-    write_evidence(&spec, base, &total, wall, n_viol, &known_seen, json!({}));
+    write_evidence(&spec, base, &total, wall, n_viol, &known_seen, extra);
     println!(
         "{prop}: {} runs ({} with stalls), {} client calls, {} thread switches, {} stalls fired, {} timed waits expired, {} violations, {} known findings seen, {:.1}s",
         total.runs, total.fault_runs, total.ops, total.switches, total.stalls, total.timeouts, n_viol, known_seen.len(), wall
     );
     exit
+}
+
+/// calls that hold locks for long or take them in an order that can close a cycle with the given call
+fn partner_candidates(prep: &Prepared, op: &crate::ops::Op) -> Vec<crate::ops::Op> {
+    use crate::ops::{Op, Recv};
+    let mut out: Vec<Op> = Vec::new();
+    let Some((mh, ms)) = prep.view.models.first() else { return out };
+    let mut push = |o: Op| {
+        if !out.contains(&o) {
+            out.push(o);
+        }
+    };
+    let node_of = |h: crate::world::H| prep.world.elem(h).and_then(|e| ms.by_elem.get(&e).copied());
+    let h_of = |i: usize| prep.world.elem_h(&ms.nodes[i].e);
+    let mut elems = Vec::new();
+    if op.k.recv() == Recv::Elem {
+        elems.push(op.a);
+    }
+    if op.k.recv_b() == Recv::Elem {
+        elems.push(op.b);
+    }
+    if elems.is_empty() {
+        // a call on the model or a file: elements all over the tree are potential meeting points
+        let mut picked = 0;
+        for (i, n) in ms.nodes.iter().enumerate() {
+            if (n.identifiable || n.is_ref || i == 0) && picked < 6 {
+                if let Some(h) = h_of(i) {
+                    elems.push(h);
+                    picked += 1;
+                }
+            }
+        }
+    }
+    for x in elems {
+        let mut cur = node_of(x);
+        while let Some(i) = cur {
+            if let Some(h) = h_of(i) {
+                push(Op::new(K::ESort, h));
+                push(Op::new(K::ESetComment, h).s("c"));
+                push(Op::new(K::ESerialize, h));
+                if ms.nodes[i].identifiable {
+                    push(Op::new(K::ESetItemName, h).s("zz9"));
+                    push(Op::new(K::ECreateNamed, h).name("AR-PACKAGE").s("zz8"));
+                }
+                if ms.nodes[i].name == autosar_data::ElementName::ArPackages {
+                    push(Op::new(K::ECreateNamed, h).name("AR-PACKAGE").s("zz7"));
+                }
+                if ms.nodes[i].name == autosar_data::ElementName::Elements {
+                    push(Op::new(K::ECreateNamed, h).name("SYSTEM-SIGNAL").s("zz6"));
+                }
+                if let Some(p) = ms.nodes[i].parent {
+                    if let Some(ph) = h_of(p) {
+                        push(Op::new(K::ERemove, ph).b(h));
+                    }
+                }
+            }
+            cur = ms.nodes[i].parent;
+        }
+    }
+    push(Op::new(K::MSort, *mh));
+    push(Op::new(K::MDebug, *mh));
+    push(Op::new(K::MCheckRefs, *mh));
+    push(Op::new(K::MSerializeFiles, *mh));
+    push(Op::new(K::MCreateFile, *mh).name(ms.files.first().map(|f| f.ver.filename()).unwrap_or("AUTOSAR_00050.xsd")).s("partner.arxml"));
+    if let Some((fh, _)) = prep.view.live_files.first() {
+        push(Op::new(K::FSerialize, *fh));
+        push(Op::new(K::FModel, *fh));
+        push(Op::new(K::MRemoveFile, *mh).b(*fh));
+    }
+    // the same call with its element operands exchanged (two moves or copies in opposite directions)
+    if op.k.recv() == Recv::Elem && op.k.recv_b() == Recv::Elem {
+        if let (Some(ia), Some(ib)) = (node_of(op.a), node_of(op.b)) {
+            if let (Some(pb), Some(_)) = (ms.nodes[ib].parent, ms.nodes[ia].parent) {
+                if let (Some(pbh), Some(ah)) = (h_of(pb), h_of(ia)) {
+                    let mut o = op.clone();
+                    o.a = pbh;
+                    o.b = ah;
+                    push(o);
+                }
+            }
+        }
+        let mut o = op.clone();
+        std::mem::swap(&mut o.a, &mut o.b);
+        push(o);
+    }
+    push(op.clone());
+    out.truncate(80);
+    out
+}
+
+/// try to turn a lock-order edge seen in a single-client history into a concrete deadlock: the history up to the call is
+/// the set-up, the call is one client, a partner call is the other; schedules are searched
+pub fn confirm_edge(edge: &str, seed: u64, thorough: bool) -> Option<PathBuf> {
+    let eng = engine();
+    let cfg = crate::profiles::hist_cfg("C15", seed, thorough);
+    let r = crate::hist::run_history(&cfg);
+    let i = r.ops.iter().position(|o| o.edges.iter().any(|e| e == edge))?;
+    let setup: Vec<(u32, crate::ops::Op)> = r.ops[..i].iter().filter_map(|o| o.op.clone().map(|op| (o.label, op))).collect();
+    let opa = r.ops[i].op.clone()?;
+    eng.begin_run(crate::engine::RunCfg::solo(seed));
+    eng.enter(0);
+    let prep = prepare(seed, 0, 0, &[], 0, 10_000, Some(&setup));
+    eng.leave();
+    let _ = eng.end_run();
+    let cands = partner_candidates(&prep, &opa);
+    drop(prep);
+    let mut rng = Rng::new(seed ^ 0xC0F1);
+    let t0 = Instant::now();
+    for p in &cands {
+        let sc = Scenario { setup: setup.clone(), clients: vec![vec![(1000, opa.clone())], vec![(1100, p.clone())]] };
+        for k in 0..14u64 {
+            if t0.elapsed().as_secs() > 60 {
+                return None;
+            }
+            let sched = SchedCfg {
+                policy: if k % 4 == 0 { "uniform".into() } else { "sticky".into() },
+                points: (0..1 + k % 3).map(|_| rng.range(1, 120)).collect(),
+                prio: vec![],
+                stall_ppm: 0,
+            };
+            let seed_k = crate::rng::derive(seed, &[k, 0xED6E]);
+            let (res, prep2) = run_scenario(&sc, seed_k, &sched, None, false, false);
+            for v in c15_violations(&prep2, &res) {
+                if v.sig.split(" + ").any(|e| e == edge) {
+                    let decisions = res.decisions.clone();
+                    drop(prep2);
+                    return finalize_conc_replay("C15", &v.sig, &v.detail, sc, sched, decisions, seed_k, &format!("directed search for edge `{edge}`"));
+                }
+            }
+        }
+    }
+    None
 }
 
 /// C15: a deadlock is known if every lock-order edge that takes part in it is a listed finding
@@ -706,7 +913,19 @@ fn classify_edges(total: &WorkerOut, make_replay: &dyn Fn(&VRec) -> Option<PathB
         if v.prop != "C15" {
             continue;
         }
-        let edges: Vec<&str> = v.sig.split(" + ").collect();
+        // a thread's edge may name several held locks ("Op: h1 -> w & h2 -> w"): each is an edge of its own
+        let mut edges_owned: Vec<String> = Vec::new();
+        for e in v.sig.split(" + ") {
+            match e.split_once(": ") {
+                Some((opk, rest)) => {
+                    for part in rest.split(" & ") {
+                        edges_owned.push(format!("{opk}: {part}"));
+                    }
+                }
+                None => edges_owned.push(e.to_string()),
+            }
+        }
+        let edges: Vec<&str> = edges_owned.iter().map(|s| s.as_str()).collect();
         // edges that follow the documented lock order are never the defect; a cycle needs at least one edge against it
         let unknown: Vec<&str> = edges.iter().copied().filter(|e| !edge_conforms(e) && crate::check::is_known(&known, "C15", e).is_none()).collect();
         if edges.iter().all(|e| edge_conforms(e)) {
